@@ -8,7 +8,8 @@ a scratch copy of /verif pointed at it (under /tmp/mut/w<k>/), applies one mutan
 one that reports a violation ("killed by Cnn").  A mutant nobody reports is a SURVIVOR and is listed for triage
 (equivalent / outside every property / a gap in a monitor).
 
-usage: mutate.py list                                   -> prints the mutant count per file
+usage: mutate.py run ... --ids M00001,M00002 | --ids @file   (only these mutants, e.g. to re-test survivors)
+       mutate.py list                                   -> prints the mutant count per file
        mutate.py run <out.jsonl> [--jobs N] [--sample K] [--seed S] [--files a.rs,b.rs] [--tier quick]
        mutate.py suite <out.jsonl> <survivors.jsonl>    -> runs the crate's own test suite on the survivors
 """
@@ -202,7 +203,7 @@ def main():
         return
     if a[0] == "run":
         out = a[1]
-        jobs, sample, seed, files, tier = 3, None, 1, None, "quick"
+        jobs, sample, seed, files, tier, ids = 3, None, 1, None, "quick", None
         i = 2
         while i < len(a):
             if a[i] == "--jobs": jobs = int(a[i + 1])
@@ -210,10 +211,13 @@ def main():
             elif a[i] == "--seed": seed = int(a[i + 1])
             elif a[i] == "--files": files = a[i + 1].split(",")
             elif a[i] == "--tier": tier = a[i + 1]
+            elif a[i] == "--ids": ids = set(open(a[i + 1][1:]).read().split()) if a[i + 1].startswith("@") else set(a[i + 1].split(","))
             i += 2
         ms = mutants()
         if files:
             ms = [m for m in ms if any(m["file"].endswith(f) for f in files)]
+        if ids:
+            ms = [m for m in ms if m["id"] in ids]
         done = set()
         if os.path.exists(out):
             for l in open(out):
